@@ -47,6 +47,9 @@ def run(st, tier, seed):
             b = progen.gen_system_bundle(rng, depth=rng.randint(1, 3), size=rng.choice([3, 5, 8]), n_templates=rng.randint(1, 3))
         if b is not None:
             bundles.append(("d%d" % i, b))
+    exb = compile_check.example_bundles(rng, 10 if tier == "quick" else 200)
+    res.count("repository-examples", len(exb))
+    bundles += exb
     # correspondence (model vs impl, des lines)
     compile_check.run_bundles(st, res, bundles, "C03", "program", fmt="des")
     res.violations = [v for v in res.violations if not v["sig"].startswith("C03:denotation")]  # PIL oracle does not apply to des text
